@@ -35,6 +35,7 @@ VARIANT = "asan"
 ASAN = ("detect_leaks=0:abort_on_error=0:exitcode=99:allocator_may_return_null=1:handle_abort=1:"
         "detect_stack_use_after_return=0:max_allocation_size_mb=1024:hard_rss_limit_mb=6000:print_legend=0")
 CHUNK = 300
+DIAG_LIMIT = 6
 ITEM_TIMEOUT = 90
 
 
@@ -140,10 +141,11 @@ def validate_reader(chk, seeds):
 # items
 
 class Case:
-    __slots__ = ("family", "label", "item", "data", "asm", "field")
+    __slots__ = ("family", "label", "item", "data", "asm", "field", "key")
 
-    def __init__(self, family, label, item, data=None, asm=None, field="?"):
+    def __init__(self, family, label, item, data=None, asm=None, field="?", key=None):
         self.family, self.label, self.item, self.data, self.asm, self.field = family, label, item, data, asm, field
+        self.key = key
 
 
 def m_item(si, off, dl, repl):
@@ -167,7 +169,7 @@ def seed_cases(family, si, name, img, edits, fmap):
     out = []
     for label, off, dl, repl in edits:
         out.append(Case(family, "%s %s" % (name, label), m_item(si, off, dl, repl), model.apply_edit(img, off, dl, repl),
-                        field=fmap[min(off, len(fmap) - 1)]))
+                        field=fmap[min(off, len(fmap) - 1)], key=(si, off, dl, bytes(repl))))
     return out
 
 
@@ -177,6 +179,21 @@ def asm_field(path):
         return "asm:scalar"
     kws = re.findall(r":([A-Za-z-]+)", path)
     return "asm:" + (kws[-1] if kws else "root")
+
+
+ASM_VALUES = ["nil", "true", "-1", "0", "1", "2", "127", "128", "255", "256", "32767", "32768", "65535", "65536",
+              "8388607", "8388608", "16777215", "16777216", "2147483647", "-2147483648", "-8388609", "1.5", "1e100",
+              ":kw", ":l1", ":upvalue", "sym", "a", "\"str\"", "[]", "[1]", "()", "(x)", "(ret 0)", "(ldi 0 1 2 3)",
+              "@[]", "{}", "@{}", "[-1]", "[0 1 2 3 4 5 6 7 8 9]", ":c10/delete", ":c10/dup"]
+ASM_SCALARS = ["nil", "true", "0", "-1", "1.5", "\"\"", "\"str\"", ":kw", "sym", "[]", "()", "@[]", "{}", "@{}",
+               "{:bytecode nil}", "{:bytecode []}", "{:bytecode [()]}", "{:bytecode [(ret 0)]}", "{:bytecode [(retn)] :arity -1}",
+               "{:bytecode [(retn)] :sourcemap [()]}", "{:bytecode [(retn)] :symbolmap [()]}",
+               "{:bytecode [(retn)] :environments [0]}", "{:bytecode [(retn)] :environments [-1]}",
+               "{:bytecode [(retn)] :closures [{}]}", "{:bytecode [(retn)] :closures [1]}",
+               "{:bytecode [(retn)] :slots [1]}", "{:bytecode [(retn)] :slots [[1]]}", "{:bytecode [(retn)] :constants 1}",
+               "{:bytecode [(jmp 0)]}", "{:bytecode [(jmp -1)]}", "{:bytecode [(jmp 1)]}",
+               "@{:bytecode @[(ldi 0 1) (ret 0)] :arity 2147483647}", "{:bytecode [(ret 70000)]}",
+               "{:bytecode [(ldi 255 1) (ret 255)]}", "{:bytecode [(ldi 256 1) (retn)]}"]
 
 
 def asm_cases():
@@ -216,7 +233,9 @@ class Ctx:
 
 
 def batch_env(ctx, trace=False):
-    e = {"ASAN_OPTIONS": ASAN, "C10_SEEDS": ctx.seedfile, "C10_NATIVE": ctx.native}
+    # batches do not symbolize (a report costs ~1 s of llvm-symbolizer); the isolated re-runs do
+    e = {"ASAN_OPTIONS": ASAN + (":symbolize=1" if trace else ":symbolize=0"), "C10_SEEDS": ctx.seedfile,
+         "C10_NATIVE": ctx.native}
     if trace:
         e["C10_TRACE"] = "1"
     return e
@@ -226,18 +245,20 @@ FRAME_RE = re.compile(r"^\s*#(\d+) 0x[0-9a-f]+ in (\S+) (\S+)", re.M)
 
 
 def classify_stderr(rc, timed_out, err):
-    """-> (class, sigpart, detail). class: asan | abort | oom | rss | hang | exit | none"""
+    """-> (class, step_class, detail, step). class: memory-error | abort | hang | oom | rss | none.
+    Only class and step go into signatures: the sanitizer's error kind and the faulting function depend
+    on what a wild pointer happens to hit, so they are reported in the text but never decide."""
     text = err.decode(errors="replace")
     steps = re.findall(r"^C10-STEP (\S+)", text, re.M)
     step = steps[-1] if steps else "start"
     step_class = re.sub(r"/.*", "", step)
     if timed_out:
-        return "hang", "hang:%s" % step_class, "no result after %ds in step %s" % (ITEM_TIMEOUT, step), step
+        return "hang", step_class, "no result after %ds in step %s" % (ITEM_TIMEOUT, step), step
     m = re.search(r"ERROR: AddressSanitizer: ([A-Za-z-]+)", text)
     if m:
         kind = m.group(1)
         if kind in ("requested", "allocation-size-too-big", "out-of-memory", "calloc-overflow"):
-            return "oom", "", "sanitizer allocator limit", step
+            return "oom", step_class, "sanitizer allocator limit", step
         if kind == "attempting":
             mm = re.search(r"attempting (double-free|free on address which was not malloc)", text)
             kind = "double-free" if mm and mm.group(1) == "double-free" else "bad-free"
@@ -248,34 +269,27 @@ def classify_stderr(rc, timed_out, err):
                 kind += "-null"
         body = text[m.start():]
         frames = FRAME_RE.findall(body)
-        fn = None
-        for _, func, loc in frames:
-            if "/src/core/" in loc or "/src/boot/" in loc:
-                fn = func
-                break
-        if fn is None:
-            fn = frames[0][1] if frames else "unknown"
         top = " <- ".join(f[1] for f in frames[:5])
-        cls = "abort" if kind == "ABRT" else "asan"
         msg = ""
         if kind == "ABRT":
             mm = re.search(r"janet internal error[^\n]*", text)
-            msg = mm.group(0) if mm else ""
-        return cls, "%s:%s:%s" % (step_class, kind, fn), "%s in step %s; frames: %s %s" % (kind, step, top, msg), step
+            msg = " (" + mm.group(0) + ")" if mm else ""
+        return ("abort" if kind == "ABRT" else "memory-error"), step_class, \
+            "%s in step %s%s; frames: %s" % (kind, step, msg, top), step
     mm = re.search(r"^C10-CHILD-SIGNAL (-?\d+)", text, re.M)
     if mm:
-        return "asan", "%s:signal%s:child" % (step_class, mm.group(1)), "forked peg child killed by signal %s" % mm.group(1), step
+        return "memory-error", step_class, "forked peg child killed by signal %s" % mm.group(1), step
     if "hard rss limit exhausted" in text or "soft rss limit exhausted" in text:
-        return "rss", "", "rss limit", step
+        return "rss", step_class, "rss limit", step
     if "janet out of memory" in text:
         mm = re.search(r"(\S+):(\d+) - janet out of memory", text)
-        return "oom", "", (mm.group(0) if mm else "janet out of memory"), step
+        return "oom", step_class, (mm.group(0) if mm else "janet out of memory"), step
     if rc is not None and rc < 0:
-        return "asan", "%s:signal%d:unknown" % (step_class, -rc), "killed by signal %d in step %s" % (-rc, step), step
+        return "memory-error", step_class, "killed by signal %d in step %s" % (-rc, step), step
     if rc not in (0, None):
         tail = text[-300:].replace("\n", " | ")
-        return "exit", "%s:exit%d" % (step_class, rc), "process exited with status %d in step %s: %s" % (rc, step, tail), step
-    return "none", "", "", step
+        return "abort", step_class, "process exited with status %d in step %s: %s" % (rc, step, tail), step
+    return "none", step_class, "", step
 
 
 def run_single(ctx, item, trace=True):
@@ -293,19 +307,33 @@ def run_single(ctx, item, trace=True):
         shutil.rmtree(d, ignore_errors=True)
 
 
-def diagnose(ctx, case):
-    """Re-run one suspect item alone, twice; both runs must agree."""
+BAD = ("memory-error", "abort", "hang")
+
+
+def diagnose(ctx, case, batch_text, status):
+    """Re-run one suspect item alone with step tracing. The death of the batch process is the first
+    observation; one isolated failure confirms it (a timeout needs two). -> (class, step_class, detail)"""
     r1, o1 = run_single(ctx, case.item)
     c1 = classify_stderr(r1.rc, r1.timed_out, r1.err)
-    if c1[0] == "none" and "DONE" in o1:
-        return ("none", "", "", c1[3], r1)
     if c1[0] in ("oom", "rss"):
-        return c1 + (r1,)
+        return c1[:3]
+    if c1[0] in BAD and c1[0] != "hang" and status == "CRASH":
+        return c1[:3]
     r2, o2 = run_single(ctx, case.item)
     c2 = classify_stderr(r2.rc, r2.timed_out, r2.err)
-    if c1[:2] != c2[:2]:
-        return ("unstable", "", "run 1: %s %s / run 2: %s %s" % (c1[0], c1[1], c2[0], c2[1]), c1[3], r1)
-    return c1 + (r1,)
+    if c1[0] in BAD and c2[0] in BAD:
+        if c1[:2] == c2[:2]:
+            return c1[:3]
+        return ("memory-error" if "memory-error" in (c1[0], c2[0]) else c1[0]), "unstable", \
+            "two isolated runs failed differently: %s / %s" % (c1[2], c2[2])
+    if c1[0] in BAD or c2[0] in BAD:
+        c = c1 if c1[0] in BAD else c2
+        return c[0], "flaky", "failed in one of two isolated runs: %s" % c[2]
+    # completes alone: what did the batch process say when it died?
+    cb = classify_stderr(None, False, batch_text.encode(errors="replace"))
+    if cb[0] in BAD:
+        return cb[0], "batch-only", "failed inside its batch but not alone: %s" % cb[2]
+    return "none", c1[1], ""
 
 
 def outcome_key(text):
@@ -318,6 +346,7 @@ class Tally:
         self.resource = {}     # detail -> count
         self.seen_inputs = set()
         self.anomalies = []
+        self.oom_keys = set()  # single edits (seed, off, dellen, repl) that alone end in a resource exit
 
 
 def run_cases(chk, ctx, tally, family, cases):
@@ -334,6 +363,7 @@ def run_cases(chk, ctx, tally, family, cases):
             continue
         tally.seen_inputs.add(key)
         todo.append(c)
+    t_start = chk.elapsed()
     res = run_batch(VARIANT, DRIVER, [c.item for c in todo], env=batch_env(ctx), chunk=CHUNK, timeout=60)
     st = dict(items=len(cases), duplicates=dup, run=len(todo), accepted=0, rejected=0, crash=0, resource_exit=0, hang=0,
               interrupted=0, slow_not_hang=0)
@@ -355,11 +385,66 @@ def run_cases(chk, ctx, tally, family, cases):
             tally.anomalies.append((c, status, text))
         else:
             suspects.append((c, status, text))
-    diags = pmap(lambda s: diagnose(ctx, s[0]), suspects)
+    def diag(sus):
+        c, status, text = sus
+        if status == "CRASH" and "rc=1 " in text and "janet out of memory" in text and "ERROR: AddressSanitizer" not in text:
+            mm = re.search(r"(\S+):(\d+) - janet out of memory", text)
+            return "oom", "", (mm.group(0) if mm else "janet out of memory")
+        return diagnose(ctx, c, text, status)
+
+    # Every dead batch item is re-run alone to learn the step it died in. In the quick tier at most
+    # DIAG_LIMIT items per mutated field are re-run once a failure of that field has been confirmed; the
+    # remaining deaths on the same field are counted under the first confirmed signature of that field.
+    limit = DIAG_LIMIT if chk.quick else None
+    diags = [None] * len(suspects)
+    by_field = {}
+    for idx, sus in enumerate(suspects):
+        by_field.setdefault(sus[0].field, []).append(idx)
+    first_bad = {}
+    cursor = {f: 0 for f in by_field}
+    while True:
+        todo_idx = []
+        for f, idxs in by_field.items():
+            if cursor[f] >= len(idxs):
+                continue
+            if limit is None:
+                take = idxs[cursor[f]:]
+            elif f not in first_bad or cursor[f] < limit:
+                take = idxs[cursor[f]:cursor[f] + limit]
+            else:
+                continue
+            cursor[f] += len(take)
+            todo_idx += take
+        if not todo_idx:
+            break
+        for idx, dg in zip(todo_idx, pmap(lambda i: diag(suspects[i]), todo_idx)):
+            diags[idx] = dg
+            if dg[0] in BAD and suspects[idx][0].field not in first_bad:
+                first_bad[suspects[idx][0].field] = dg
+    # the deaths that were not re-run alone: the tail of the batch worker's stderr must itself show a
+    # sanitizer error or a fatal signal; anything less clear is re-run after all
+    unclear = []
+    for idx, sus in enumerate(suspects):
+        if diags[idx] is None:
+            m = re.search(r"rc=(-?\d+) timed_out=(\w+)", sus[2])
+            rc = int(m.group(1)) if m else None
+            cb = classify_stderr(rc, sus[1] == "TIMEOUT", sus[2].encode(errors="replace"))
+            report_seen = any(k in sus[2] for k in ("ERROR: AddressSanitizer", "SUMMARY: AddressSanitizer",
+                                                    "Shadow bytes around the buggy address"))
+            if (rc == 99 and report_seen) or (rc is not None and rc < 0):
+                fb = first_bad[sus[0].field]
+                diags[idx] = (fb[0], fb[1], fb[2] + " (this input was not re-run alone: quick tier limit per field)")
+                st["not_rerun_alone"] = st.get("not_rerun_alone", 0) + 1
+            else:
+                unclear.append(idx)
+    for idx, dg in zip(unclear, pmap(lambda i: diag(suspects[i]), unclear)):
+        diags[idx] = dg
     for (c, status, text), dg in zip(suspects, diags):
-        cls, sig, detail, step, r = dg
+        cls, stepc, detail = dg
         if cls in ("oom", "rss"):
             st["resource_exit"] += 1
+            if c.key is not None:
+                tally.oom_keys.add(c.key)
             tally.resource[detail] = tally.resource.get(detail, 0) + 1
             chk.outcome("resource-exit", nontrivial=False)
         elif cls == "none":
@@ -367,14 +452,14 @@ def run_cases(chk, ctx, tally, family, cases):
             if status == "TIMEOUT":
                 st["slow_not_hang"] += 1
             else:
-                raise HarnessError("item %s crashed in its batch (%s) but not when run alone" % (c.item[:200], text[-600:]))
-        elif cls == "unstable":
-            raise HarnessError("item %s does not fail the same way twice: %s" % (c.item[:200], detail))
+                raise HarnessError("item %s: batch process died (%s) without a sanitizer report, and the item completes "
+                                   "alone" % (c.item[:200], text[-600:]))
         else:
             st["hang" if cls == "hang" else "crash"] += 1
-            full = "%s|%s" % (c.field, sig.replace(":", "|"))
+            full = "%s|%s|%s" % (c.field, stepc, cls)
             chk.outcome("violation:" + full)
-            tally.groups.setdefault(full, []).append((c, cls, detail, r))
+            tally.groups.setdefault(full, []).append((c, cls, detail))
+    st["wall_s"] = round(chk.elapsed() - t_start, 1)
     chk.part(family, **st)
     return st
 
@@ -435,21 +520,21 @@ def report(chk, ctx, tally):
             p = os.path.join(d, "replay.janet")
             with open(p, "w") as f:
                 f.write(reps[sig][1])
-            rr = run(vjanet(VARIANT), [p], env={"ASAN_OPTIONS": ASAN}, timeout=ITEM_TIMEOUT)
+            rr = run(vjanet(VARIANT), [p], env={"ASAN_OPTIONS": ASAN + ":symbolize=0"}, timeout=ITEM_TIMEOUT)
             c = classify_stderr(rr.rc, rr.timed_out, rr.err)
-            return c[0] not in ("none", "oom", "rss")
+            return c[0] in BAD
         finally:
             shutil.rmtree(d, ignore_errors=True)
 
     confirmed = dict(zip(sigs, pmap(confirm, sigs)))
     for sig in sigs:
         lst = tally.groups[sig]
-        (case, cls, detail, r), text = reps[sig]
+        (case, cls, detail), text = reps[sig]
         fams = {}
         for t in lst:
             fams[t[0].family] = fams.get(t[0].family, 0) + 1
         what = ("%s: %s. Minimal case: [%s] %s%s. %d inputs with this signature (%s). Stand-alone replay %s." % (
-            "hang" if cls == "hang" else ("abort" if cls in ("abort", "exit") else "memory error"), detail, case.family,
+            cls, detail, case.family,
             case.label, (" image=" + case.data.hex()) if case.data is not None and len(case.data) <= 80 else "",
             len(lst), ", ".join("%s %d" % kv for kv in sorted(fams.items())),
             "reproduces it" if confirmed[sig] else "did NOT reproduce it (needs the budgeted helper or the batch history)"))
@@ -486,16 +571,37 @@ def main():
     scratch = mktmp()
     tally = Tally()
     only = chk.args.only
+    # replay files of earlier runs of this property are stale by definition
+    rd = os.path.join(VERIF, "replays")
+    if os.path.isdir(rd):
+        for f in os.listdir(rd):
+            if f.startswith("C10_"):
+                os.unlink(os.path.join(rd, f))
     try:
         seeds, ctx.seedfile = make_seeds(scratch)
         parsed = validate_reader(chk, seeds)
         fmaps = [field_map(r) for r in parsed]
         order = sorted(range(len(seeds)), key=lambda i: (len(seeds[i][1]), seeds[i][0]))
+        nbytes = sum(len(s[1]) for s in seeds)
+        completed = []
 
         def want(f):
             return only is None or only == f
 
-        # 0. the unmutated seeds and templates must be accepted and survive the battery
+        def groups_of(limit):
+            """seed indices in ascending size, grouped so that one group holds about `limit` image bytes"""
+            out, g, n = [], [], 0
+            for i in order:
+                g.append(i)
+                n += len(seeds[i][1])
+                if n >= limit:
+                    out.append(g)
+                    g, n = [], 0
+            if g:
+                out.append(g)
+            return out
+
+        # 0. the unmutated seeds must be accepted and survive the battery
         base = [Case("baseline", "%s unmutated" % seeds[i][0], m_item(i, 0, 0, b""), seeds[i][1], field="unmutated")
                 for i in order]
         st = run_cases(chk, ctx, tally, "baseline", base)
@@ -510,20 +616,34 @@ def main():
                                     [("truncated to %d" % off, off, dl, rp) for _, off, dl, rp in model.mutations_trunc(seeds[i][1])],
                                     fmaps[i])
             run_cases(chk, ctx, tally, "trunc", cases)
+            completed.append("every truncation of %d seeds" % len(seeds))
 
-        # 2. structure-aware single-field mutations
-        if want("struct"):
-            cases = []
-            for i in order:
-                cases += seed_cases("struct", i, seeds[i][0], seeds[i][1], model.mutations_struct(parsed[i], nops), fmaps[i])
-            run_cases(chk, ctx, tally, "struct", cases)
-
-        # 3. free byte strings
+        # 2. free byte strings
         if want("free"):
             maxlen = 2 if chk.quick else 3
             cases = [Case("free", "bytes %s" % b.hex(), "[:raw %s]" % jdn(b), b, field="free") for b in model.free_strings(maxlen)]
             run_cases(chk, ctx, tally, "free", cases)
             chk.cov["free_strings_max_length"] = maxlen
+            completed.append("all byte strings of length <= %d over %d bytes" % (maxlen, len(model.FREE_ALPHABET)))
+
+        # 3. structure-aware single-field mutations (seeds in ascending size)
+        if want("struct"):
+            done = 0
+            for g in groups_of(3000):
+                if chk.out_of_time(0.80):
+                    chk.cap("structure-aware mutations completed for the %d smallest of %d seeds (time budget)" % (done, len(seeds)))
+                    break
+                cases = []
+                for i in g:
+                    cases += seed_cases("struct", i, seeds[i][0], seeds[i][1], model.mutations_struct(parsed[i], nops, chk.quick), fmaps[i])
+                # forged sizes of 2^24 and more often end in janet's out-of-memory exit, which kills the batch
+                # process: keep them together at the end so that they do not cost the other items a re-run
+                big = re.compile(r"=(\d{8,})$")
+                cases.sort(key=lambda c: 1 if big.search(c.label) else 0)
+                run_cases(chk, ctx, tally, "struct", cases)
+                done += len(g)
+            chk.cov["struct_seeds_completed"] = done
+            completed.append("every located field x boundary values on %d of %d seeds" % (done, len(seeds)))
 
         # 4. asm
         if want("asm"):
@@ -534,32 +654,30 @@ def main():
                 raise HarnessError("asm templates were not all accepted: %s" % st)
             rest = [c for c in cases if c.family == "asm"]
             if chk.quick:
-                # quick: every node x the 14 most extreme values
-                keepv = {"nil", "-1", "0", "255", "256", "65535", "65536", "8388608", "2147483647", "-2147483648", ":kw", "sym",
-                         "[]", ":c10/delete"}
+                # quick: every node x the most extreme values
+                keepv = {"nil", "-1", "256", "65536", "2147483647", "-2147483648", ":kw", "sym", "[]", ":c10/delete"}
                 rest = [c for c in rest if c.asm[0] is None or c.asm[2] in keepv]
-                chk.cov["asm_values_per_node"] = len(keepv)
+                nvals = len(keepv)
             else:
-                chk.cov["asm_values_per_node"] = len(ASM_VALUES)
-            run_cases(chk, ctx, tally, "asm", rest)
+                nvals = len(ASM_VALUES)
+            chk.cov["asm_values_per_node"] = nvals
             chk.part("asm-templates", templates=ntpl, nodes=npaths)
+            if chk.out_of_time(0.85):
+                chk.cap("asm node replacements not run (time budget)")
+            else:
+                run_cases(chk, ctx, tally, "asm", rest)
+                completed.append("every node of %d asm descriptions (%d nodes) x %d values" % (ntpl, npaths, nvals))
 
-        # 5. byte substitutions, seeds in ascending size; stop between seeds when the budget is used
+        # 5. byte substitutions, seeds in ascending size; stop between groups when the budget is used
         if want("subst"):
             done = 0
-            frac = 0.85 if chk.quick else 0.70
-            group, gsize = [], 0
-            groups = []
-            for i in order:
-                group.append(i)
-                gsize += len(seeds[i][1])
-                if gsize >= (600 if chk.quick else 1500):
-                    groups.append(group)
-                    group, gsize = [], 0
-            if group:
-                groups.append(group)
-            for g in groups:
-                if chk.out_of_time(frac):
+            subst_order = groups_of(700 if chk.quick else 3000)
+            if chk.quick:
+                # quick bound: the seeds of at most 24 bytes (every scalar, string, small container, reference shape)
+                subst_order = [[i for i in order if len(seeds[i][1]) <= 24]]
+                chk.cov["subst_quick_bound"] = "seeds of at most 24 bytes"
+            for g in subst_order:
+                if chk.out_of_time(0.85 if chk.quick else 0.75):
                     chk.cap("byte substitution completed for the %d smallest of %d seeds (time budget)" % (done, len(seeds)))
                     break
                 cases = []
@@ -570,33 +688,43 @@ def main():
                 run_cases(chk, ctx, tally, "subst", cases)
                 done += len(g)
             chk.cov["subst_seeds_completed"] = done
+            completed.append("every offset x %d boundary bytes on the %d smallest of %d seeds" % (
+                len(model.BYTE_BOUNDARY), done, len(seeds)))
 
         # 6. pairs of header integers (thorough)
         if want("pairs") and not chk.quick:
             done = 0
-            for i in order:
+            for g in groups_of(1500):
                 if chk.out_of_time(0.92):
-                    chk.cap("header-integer pairs completed for %d of %d seeds (time budget)" % (done, len(seeds)))
+                    chk.cap("header-integer pairs completed for the %d smallest of %d seeds (time budget)" % (done, len(seeds)))
                     break
-                pm = model.mutations_pairs(parsed[i])
-                if pm:
-                    cases = []
-                    for label, edits in pm:
+                cases = []
+                pruned = 0
+                for i in g:
+                    for label, edits in model.mutations_pairs(parsed[i]):
+                        # an assignment that alone already leaves through the out-of-memory exit (learnt from the
+                        # single-field family) does so whatever its partner is: not combined
+                        if any((i, o, d, bytes(rp)) in tally.oom_keys for o, d, rp in edits):
+                            pruned += 1
+                            continue
                         item = "[:e %d [%s]]" % (i, " ".join("[%d %d %s]" % (o, d, jdn(bytes(rp))) for o, d, rp in edits))
                         fld = "+".join(norm_field(x.split("=")[0]) for x in label.split(","))
                         cases.append(Case("pairs", "%s %s" % (seeds[i][0], label), item, model.apply_edits(seeds[i][1], edits),
                                           field=fld))
-                    run_cases(chk, ctx, tally, "pairs", cases)
-                done += 1
+                run_cases(chk, ctx, tally, "pairs", cases)
+                chk.part("pairs", pruned_resource_exit_assignments=pruned)
+                done += len(g)
             chk.cov["pairs_seeds_completed"] = done
+            completed.append("pairs of header integers on %d of %d seeds" % (done, len(seeds)))
 
         if tally.resource:
             chk.part("resource-exit-sites", **{k[:80]: v for k, v in sorted(tally.resource.items())})
-        mid = seeds[order[len(order) // 2]]
+        mid = order[len(order) // 2]
         chk.sample({"first_seed": seeds[order[0]][0], "image": seeds[order[0]][1].hex()})
-        chk.sample({"middle_seed": mid[0], "image": mid[1].hex(), "fields": len(parsed[order[len(order) // 2]].fields)})
+        chk.sample({"middle_seed": seeds[mid][0], "image": seeds[mid][1].hex(), "fields": len(parsed[mid].fields),
+                    "example_mutation": model.mutations_struct(parsed[mid], nops)[0][0]})
         chk.sample({"last_seed": seeds[order[-1]][0], "bytes": len(seeds[order[-1]][1])})
-        chk.cov["bound_completed"] = "single faults on %d seeds (%d bytes)" % (len(seeds), sum(len(s[1]) for s in seeds))
+        chk.cov["bound_completed"] = "; ".join(completed) + " (%d seed bytes in total)" % nbytes
         report(chk, ctx, tally)
     finally:
         shutil.rmtree(scratch, ignore_errors=True)
